@@ -23,6 +23,10 @@ HaVal(q, rem) == BAdd(BMul(q, NM1), rem)
 HaEntry(q, rem) == [kind |-> "ha", ha |-> BToBE(HaVal(q, rem), 40), fits |-> IF BLt(HaVal(q, rem), <<1>> \o [z \in 1..40 |-> 0]) THEN 1 ELSE 0, expect |-> B32(BAdd(rem, <<1>>))]
 HaEntries(j) == [x \in 1..40 |-> HaEntry(Quots(j)[((x - 1) \div 5) + 1], Rems[((x - 1) % 5) + 1])]
 ZeroKey(j, hid) == [kind |-> "zerokey", hid |-> hid, idb |-> IdOf(j), k |-> B32(BSubMod(Z0, H1(IdOf(j), hid), N))]
+\* master secrets for which the extraction scalar t2 = k (H1 + k)^-1 is a CHOSEN value s (small, or with all-zero 64-bit limbs): k = s H1 (1 - s)^-1
+T2Vals == << <<2>>, <<1,0,0,0,0,0,0,0,0>>, <<1>> \o [q \in 1..15 |-> 0] \o <<7>>, <<1>> \o [q \in 1..24 |-> 0] \o <<5>>, <<13,236,13,237>>, <<3,0,0,0,0,0,0,0,0,0,0,0,0,0,0,0,0>> >>
+T2Key(j, hid, sv) == [kind |-> "t2key", hid |-> hid, idb |-> IdOf(j), k |-> B32(BMulMod(BMulMod(sv, H1(IdOf(j), hid), N), InvN(BSubMod(<<1>>, sv, N)), N)), t2 |-> B32(sv)]
+T2Keys(j) == IF j > 1 THEN <<>> ELSE [x \in 1..(3 * Len(T2Vals)) |-> T2Key(j, ((x - 1) % 3) + 1, T2Vals[((x - 1) \div 3) + 1])]
 SpecSig3(j, ks, sg) == [kind |-> "specsig", ks |-> B32(ks), idb |-> IdOf(j), msg |-> MsgOfJ(j), r |-> B32(Kof(j, 2)), ok |-> sg[1],
                         h |-> IF sg[1] = "ok" THEN B32(sg[2]) ELSE <<>>, s |-> IF sg[1] = "ok" THEN <<4>> \o PtBytes(sg[3]) ELSE <<>>]
 SpecSig2(j, ks, ds) == SpecSig3(j, ks, Sign(GPow(ks), ds[2], MsgOfJ(j), Kof(j, 2)))
@@ -31,6 +35,6 @@ SpecCt2(j, ke, x) == [kind |-> "specct", ke |-> B32(ke), idb |-> IdOf(j), msg |-
 SpecCt(j) == SpecCt2(j, Kof(j, 9), Encrypt(GPow(Kof(j, 9)), PpubE(Kof(j, 9)), IdOf(j), MsgOfJ(j), Kof(j, 2)))
 Init == pidx = 0 /\ pout = <<>>
 Next == pidx < NK /\ pidx' = pidx + 1 /\
-        pout' = << ZeroKey(pidx + 1, 1), ZeroKey(pidx + 1, 2), ZeroKey(pidx + 1, 3), SpecSig(pidx + 1), SpecCt(pidx + 1) >> \o HaEntries(pidx + 1)
+        pout' = << ZeroKey(pidx + 1, 1), ZeroKey(pidx + 1, 2), ZeroKey(pidx + 1, 3), SpecSig(pidx + 1), SpecCt(pidx + 1) >> \o HaEntries(pidx + 1) \o T2Keys(pidx + 1)
 Emit == \A j \in 1..Len(pout) : PrintT(<<"PLAN", ToJson(pout[j])>>)
 =============================================================================
